@@ -103,7 +103,7 @@ pub fn explore(ctx: &Ctx) {
 }
 
 pub fn replay(ctx: &Ctx, _clause: &str, case: &Value) {
-    let c: PtCase = serde_json::from_value(case.clone()).expect("case");
+    let c: PtCase = serde_json::from_value::<PtCase>(case.clone()).map(PtCase::fix).expect("case");
     let mut l = Local::default();
     let ds = [c.date.pred_opt().unwrap(), c.date, c.date.succ_opt().unwrap()];
     walk(ctx, &mut l, &c.params, c.site, &ds);
